@@ -139,7 +139,11 @@ func (rt *scenRT) componentFn(i int) f1t.ScenarioFn {
 					rec.PlannedFail = true
 				}
 			}
-			behave(t, b)
+			if cp.InTime {
+				t.Time("component", func() { behave(t, b) })
+			} else {
+				behave(t, b)
+			}
 		}
 	}
 }
